@@ -30,7 +30,7 @@ RULE = ('correspondence: Line::points() vs the extracted model for all lines wit
         'non-trivial = model result non-empty; distinct = distinct case lines. '
         'Line::with_delta / delta vs the model on random starts and deltas; search p_line also checks Line::new vs struct literal, delta, with_delta(start, delta) = l, midpoint. '
         'search p_line / p_thick: every clause of the property evaluated in exact i128 arithmetic on the real iterators; p_thick on '
-        'every delta of the grid [-R,R]^2 (R=7 quick, 12 thorough) x every width 0..9/12 and on random lines up to 300 long x widths up to 33, plus long wide strokes (length 240..1000 x width 30..64).')
+        'every delta of the grid [-R,R]^2 (R=7 quick, 12 thorough) x every width 0..9/12 and on random lines up to 300 long x widths up to 33, plus long wide strokes (length 240..1000 x width 30..64) and very long narrow ones (major length 35 000..260 000, thorough to 600 000, widths 1..4: beyond 2^16 the squared length leaves 32 bits).')
 EXHAUSTIVE = {'quick': False, 'thorough': False}
 ASSUMPTIONS = ['line_ok: all four coordinates within +-2^28 (so that 2*|delta| and the error accumulator fit i32); '
                'beyond it the implementation overflows (panic in debug, wrap in release) and C17 makes no claim',
@@ -138,3 +138,9 @@ def search(tier, rng):
     yield J('p_thick', 0, 100, 479, 100, 50)
     for _ in range(24 if tier == 'quick' else 400):
         yield J('p_thick', *long_line(rng, rng.choice([480, 700, 1000])), rng.choice([30, 40, 50, 64]))
+    # very long narrow strokes (major length beyond 2^16, where the squared length no longer fits 32 bits: seeded C17-E):
+    # few but large cases; the width-1 clause (= points()), thin-line containment and the distance clause decide them
+    yield J('p_thick', -100, 7, 199900, 7, 1)
+    for L in ((70000, 140000, 260000) if tier == 'quick' else (70000, 90000, 140000, 140000, 200000, 260000, 400000, 600000)):
+        yield J('p_thick', *long_line(rng, L), 1)
+        yield J('p_thick', *long_line(rng, L), rng.choice([2, 3, 4]))
